@@ -84,6 +84,30 @@ PresenceAt(j) ==
                ELSE base[key]]
     IN  Item("presence", MkDoc(f), j)
 
+\* ---- A2: malformed quantities inside the presence lattice -------------------------------------
+\* for every combination of present dispatch keys: a malformed literal in EACH present numeric dispatch key alone, in
+\* ALL of them at once, and in all fee-market keys at once (the other keys stay well-formed): which keys are present
+\* decides the kind, whatever their values look like, and a malformed value of a present key is refused
+BadQty == <<NNum("30.5"), NStr(""), NStr("0xg"), NStr("0x1" \o Utf8ToStr(Rep(64, 48))), NNum("1e80"), NStr("1.0"), NBool(TRUE), NArr(<<>>)>>
+NumDispatch == <<"gasPrice", "maxPriorityFeePerGas", "maxFeePerGas", "chainId">>
+\* mode 1..4: that key alone; 5: all present numeric dispatch keys; 6: the fee-market keys
+NBadPresence == 32 * 6 * (IF Thorough THEN Len(BadQty) ELSE 2)
+BadPresenceAt(j) ==
+    LET mask == (j - 1) % 32
+        mode == 1 + (((j - 1) \div 32) % 6)
+        bad  == BadQty[1 + (((j - 1) \div 192 + mask + mode) % Len(BadQty))]
+        on(key) == \E b \in 1..5 : PresenceKeys[b] = key /\ Bit(mask, b - 1)
+        hit(key) == IF mode <= 4 THEN key = NumDispatch[mode]
+                    ELSE IF mode = 5 THEN key \in {NumDispatch[i] : i \in 1..4}
+                    ELSE key \in {"maxPriorityFeePerGas", "maxFeePerGas"}
+        base == Default("1559", <<13, j % 7>>)
+        f == [key \in KeySet |->
+               IF key \in {PresenceKeys[b] : b \in 1..5} THEN
+                 (IF ~on(key) THEN Absent ELSE IF hit(key) THEN bad
+                  ELSE IF key = "gasPrice" THEN NHexQty(RandUint(<<13, j % 7>>, key)) ELSE base[key])
+               ELSE base[key]]
+    IN  Item("presence_malformed", MkDoc(f), j)
+
 \* ---- B: boundary values in every numeric slot of every kind ---------------
 Boundary == <<<<>>, <<1>>, <<127>>, <<128>>, <<255>>, <<1, 0>>, Rep(8, 255), <<1>> \o Zeros(8),
               <<128>> \o Zeros(31), Rep(32, 255)>>
@@ -156,6 +180,16 @@ ChainAt(j) ==
         base == Default(kind, <<5, j>>)
     IN  Item("chain", MkDoc([base EXCEPT !["chainId"] = NHexQty(c),
                                            !["nonce"] = NHexQty(BnFromNat(j % 4))]), j)
+
+\* ---- E2: chain ids at which v = 35 + 2c + yParity crosses an integer width ---------------------
+\* c = 2^(w-1) - 18 is the largest chain id whose v (with odd parity) still fits w bits; w = 8, 16, 32, 64, 128, 256,
+\* its two neighbours, four nonces each (both parities occur).  v is an integer, not a machine word.
+VWidths == <<8, 16, 32, 64, 128, 256>>
+VEdge(k) == LET w == VWidths[1 + (k \div 3)] IN BnAdd(BnSub(BnPow2(w - 1), <<19>>), BnFromNat(k % 3))       \* k in 0..17
+NVWidth == 18 * 4
+VWidthAt(j) ==
+  LET base == Default("legacy", <<6, j % 3>>)
+  IN  Item("v_width", MkDoc([base EXCEPT !["chainId"] = NHexQty(VEdge((j - 1) \div 4)), !["nonce"] = NHexQty(BnFromNat(j % 4))]), j)
 
 \* ---- S: spec-directed search for signatures whose r or s has a leading zero byte ----
 \* (integers shorter than 32 bytes in the signature tail: about one signature in 128 each).
